@@ -32,6 +32,7 @@ type Stats struct {
 	SolverNs  int64
 	Errors    []string
 	Instrs    int64
+	Asserts   int
 	Paths     int
 	MaxDepth  int
 	FuncsSeen map[string]bool
